@@ -494,6 +494,7 @@ func (s *seqRun) use(k *key) {
 func (s *seqRun) release(k *key) {
 	var n int
 	var err error
+	pre := s.w.state() // which layers of the image are cached before the release (classification only)
 	if !s.call(fmt.Sprintf("release(%s)", k), func() { n, err = s.drv.release(k) }) {
 		return
 	}
@@ -532,21 +533,23 @@ func (s *seqRun) release(k *key) {
 			}
 		}
 		s.lookedHeld[k.id] = false
-		if s.imgUses[k.imgNo] == 0 {
-			s.dropped[k.id] = "image-zero"
-		} else {
-			s.dropped[k.id] = "sibling-in-use"
+		if has(pre.layers[k.img.ref.String()], k.dig.String()) {
+			if s.imgUses[k.imgNo] == 0 {
+				s.dropped[k.id] = "image-zero"
+			} else {
+				s.dropped[k.id] = "sibling-in-use"
+			}
 		}
 	}
 	s.checkState("release")
 	if s.imgUses[k.imgNo] == 0 {
-		s.imageZero(k)
+		s.imageZero(k, pre)
 	}
 }
 
 // imageZero: the last use of an image was just released. Statement: its layers and its
 // resolution bookkeeping are dropped.
-func (s *seqRun) imageZero(k *key) {
+func (s *seqRun) imageZero(k *key, pre mstate) {
 	s.r.Count("image_release_to_zero_events", 1)
 	ref := k.img.ref.String()
 	for _, h := range s.holds {
@@ -555,7 +558,7 @@ func (s *seqRun) imageZero(k *key) {
 		}
 	}
 	for _, kk := range s.c.keys {
-		if kk.imgNo == k.imgNo && s.dropped[kk.id] == "" {
+		if kk.imgNo == k.imgNo && s.dropped[kk.id] == "" && has(pre.layers[ref], kk.dig.String()) {
 			s.dropped[kk.id] = "image-zero"
 		}
 	}
